@@ -11,6 +11,7 @@ let () =
     | "offline" -> D_offline.eval, D_offline.oracle
     | "serde" -> D_serde.eval, D_serde.oracle
     | "solver" | "faults" -> D_solver.eval, D_solver.oracle
+    | "report" | "collapse" -> D_report.eval, D_report.oracle
     | _ -> failwith "unknown domain" in
   let n = ref 0 in
   (try
